@@ -321,7 +321,7 @@ def run_cases(exe, cases, env=None, timeout=600, per_case_restart=True, extra_ar
         if not why:
             tail = [l for l in (out[-300:] + "\n" + err[-300:]).splitlines() if l.strip()]
             why = tail[-1].strip() if tail else ""
-        results.append("DIED rc=%d %s%s" % (rc, why[:200], (" | " + partial[:300]) if partial else ""))
+        results.append("DIED rc=%d %s%s" % (rc, why[:200], (" | " + partial[:6000]) if partial else ""))
         i += 1
         deaths += 1
         if not per_case_restart or deaths > max_deaths:
